@@ -264,16 +264,14 @@ func splitNode[T any](n *node[T], pos int) (*node[T], error) {
 		return nil, err
 	}
 	ret := p.newChild(segs[0])
-	c := ret.newChild(segs[1])
-	c.handlers = n.handlers
-	c.methodIndex = n.methodIndex
-	c.children = n.children
-	c.indexes = n.indexes
-	for _, item := range c.children {
-		item.parent = c
-	}
 
-	// ret 和 c 的内容在 newChild 之后被修改，所以需要对其子元素重新排序。
+	// n 本身保留为 ret 的子节点：已经生成的 OPTIONS 和 405 处理对象引用的是 n，
+	// 换成新的节点对象会让它们的 Allow 报头不再更新。n.pattern 不变。
+	n.parent = ret
+	n.segment = segs[1]
+	ret.children = append(ret.children, n)
+
+	// ret 的内容在 newChild 之后被修改，所以需要对其子元素重新排序。
 	ret.sort()
 	p.sort()
 
